@@ -23,6 +23,10 @@
 //	   affected subscription fails with ErrACLChanged / ErrSubForceClosed; handler errors and
 //	   unexpected framing events are violations of their own
 //
+// Every subscriber carries a REAL acl.Authorizer (all, none, service subsets, node subset); the
+// events it takes from the shared buffer items pass through the real filter of the subscribe
+// loop (Payload.HasReadPermission -> PayloadEvents.filter), and M2/M3 compare its view with the
+// direct query filtered by the same authorizer (aclfilter / ConfigEntry.CanRead).
 // A violation is reported under the signature of its root cause when the harness itself
 // created that cause (snapshot taken while batches were queued, batch of a discarded history,
 // materializer index beyond a restored version, a registration flagged by flagWrite from the
@@ -53,6 +57,7 @@ import (
 	"github.com/hashicorp/consul/agent/rpcclient/configentry"
 	"github.com/hashicorp/consul/agent/rpcclient/health"
 	"github.com/hashicorp/consul/agent/structs"
+	"github.com/hashicorp/consul/agent/structs/aclfilter"
 	"github.com/hashicorp/consul/agent/submatview"
 	"github.com/hashicorp/consul/api"
 	raftstorage "github.com/hashicorp/consul/internal/storage/raft"
@@ -150,36 +155,93 @@ type qres struct {
 	view string
 }
 
-func directQuery(s *state.Store, k keyT) qres {
+// ---------------------------------------------------------------- authorizers
+
+// authzSpec is one small ACL policy; the harness builds REAL acl authorizers from the rules.
+type authzSpec struct {
+	name  string // protocol token: all | none | s:<names> | n:<nodes>
+	rules string
+}
+
+var authzSpecs = []authzSpec{
+	{"all", ""},
+	{"none", ""},
+	{"s:=web", `service "web" { policy = "read" } node_prefix "" { policy = "read" }`},
+	{"s:=web,=api", `service "web" { policy = "read" } service "api" { policy = "read" } node_prefix "" { policy = "read" }`},
+	{"n:=n1", `node "n1" { policy = "read" } service_prefix "" { policy = "read" }`},
+}
+
+var authorizers = func() map[string]acl.Authorizer {
+	m := map[string]acl.Authorizer{"all": acl.ManageAll(), "none": acl.DenyAll()}
+	for _, a := range authzSpecs {
+		if a.rules == "" {
+			continue
+		}
+		pol, err := acl.NewPolicyFromSource(a.rules, nil, nil)
+		if err != nil {
+			panic(err)
+		}
+		az, err := acl.NewPolicyAuthorizerWithDefaults(acl.DenyAll(), []*acl.Policy{pol}, nil)
+		if err != nil {
+			panic(err)
+		}
+		m[a.name] = az
+	}
+	return m
+}()
+
+func dumpKey(k keyT, az string) string {
+	if az == "all" {
+		return k.String()
+	}
+	return k.String() + "|" + az
+}
+
+// directQuery is the equivalent direct query, ACL-filtered the way the RPC endpoints do it
+// (aclfilter for health results, ConfigEntry.CanRead for config entries).
+func directQuery(s *state.Store, k keyT, az string) qres {
+	authz := authorizers[az]
+	filterNodes := func(nodes structs.CheckServiceNodes) structs.CheckServiceNodes {
+		r := &structs.IndexedCheckServiceNodes{Nodes: append(structs.CheckServiceNodes(nil), nodes...)}
+		aclfilter.New(authz, hclog.NewNullLogger()).Filter(r)
+		return r.Nodes
+	}
 	switch k.topic {
 	case "h":
 		idx, nodes, err := s.CheckServiceNodes(nil, k.subj, nil, "")
 		if err != nil {
 			return qres{0, "err"}
 		}
-		return qres{idx, canonCSNs(nodes)}
+		return qres{idx, canonCSNs(filterNodes(nodes))}
 	case "c":
 		idx, nodes, err := s.CheckConnectServiceNodes(nil, k.subj, nil, "")
 		if err != nil {
 			return qres{0, "err"}
 		}
-		return qres{idx, canonCSNs(nodes)}
+		return qres{idx, canonCSNs(filterNodes(nodes))}
 	default:
+		var es []structs.ConfigEntry
+		var idx uint64
+		var err error
 		if k.subj == "*" {
-			idx, es, err := s.ConfigEntriesByKind(nil, structs.ServiceDefaults, structs.DefaultEnterpriseMetaInDefaultPartition())
-			if err != nil {
-				return qres{0, "err"}
+			idx, es, err = s.ConfigEntriesByKind(nil, structs.ServiceDefaults, structs.DefaultEnterpriseMetaInDefaultPartition())
+		} else {
+			var e structs.ConfigEntry
+			idx, e, err = s.ConfigEntry(nil, structs.ServiceDefaults, k.subj, structs.DefaultEnterpriseMetaInDefaultPartition())
+			if e != nil {
+				es = []structs.ConfigEntry{e}
 			}
-			return qres{idx, canonCfgs(es)}
 		}
-		idx, e, err := s.ConfigEntry(nil, structs.ServiceDefaults, k.subj, structs.DefaultEnterpriseMetaInDefaultPartition())
 		if err != nil {
 			return qres{0, "err"}
 		}
-		if e == nil {
-			return qres{idx, "-"}
+		var vis []structs.ConfigEntry
+		for _, e := range es {
+			if e.CanRead(authz) == nil {
+				vis = append(vis, e)
+			}
 		}
-		return qres{idx, canonCfgs([]structs.ConfigEntry{e})}
+		return qres{idx, canonCfgs(vis)}
 	}
 }
 
@@ -198,6 +260,7 @@ type client struct {
 	key  keyT
 	tok  string
 	rpc  bool
+	az   string // name of the subscriber's authorizer (authzSpecs)
 	cl   *submatview.VerifC11Client
 	view submatview.View
 	sub  *stream.Subscription
@@ -277,7 +340,9 @@ func newWorld(run *hx.Run, ttl bool) *world {
 func (w *world) dumpAll() map[string]qres {
 	m := map[string]qres{}
 	for _, k := range universe {
-		m[k.String()] = directQuery(w.fsm.State(), k)
+		for _, a := range authzSpecs {
+			m[dumpKey(k, a.name)] = directQuery(w.fsm.State(), k, a.name)
+		}
 	}
 	return m
 }
@@ -426,7 +491,7 @@ func (w *world) opPub() (string, string) {
 	return "pub", fmt.Sprintf("pub q=%d", w.pub.VerifC11QueueLen())
 }
 
-func (w *world) opClient(id int, k keyT, tok string, rpc bool) (string, string) {
+func (w *world) opClientAz(id int, k keyT, tok string, rpc bool, az string) (string, string) {
 	var view submatview.View
 	switch {
 	case k.topic == "g" && k.subj == "*":
@@ -440,7 +505,7 @@ func (w *world) opClient(id int, k keyT, tok string, rpc bool) (string, string) 
 		}
 		view = hv
 	}
-	c := &client{id: id, key: k, tok: tok, rpc: rpc, view: view, cl: submatview.VerifC11NewClient(view)}
+	c := &client{id: id, key: k, tok: tok, rpc: rpc, az: az, view: view, cl: submatview.VerifC11NewClient(view)}
 	w.clients[id] = c
 	w.order = append(w.order, id)
 	sj := "*"
@@ -448,8 +513,15 @@ func (w *world) opClient(id int, k keyT, tok string, rpc bool) (string, string) 
 		sj = hx.EncS(k.subj)
 	}
 	w.tag("client:" + k.topic + map[bool]string{true: "-wild", false: ""}[k.subj == "*"] + map[bool]string{true: "-rpc", false: "-local"}[rpc])
-	return fmt.Sprintf("client %d %s %s %s %s", id, k.topic, sj, hx.EncS(tok), hx.EncBool(rpc)), "ok"
+	w.tag("authz:" + strings.SplitN(az, ":", 2)[0])
+	return fmt.Sprintf("client %d %s %s %s %s %s", id, k.topic, sj, hx.EncS(tok), hx.EncBool(rpc), az), "ok"
 }
+
+func (w *world) opClient(id int, k keyT, tok string, rpc bool) (string, string) {
+	return w.opClientAz(id, k, tok, rpc, "all")
+}
+
+func (c *client) dkey() string { return dumpKey(c.key, c.az) }
 
 func (w *world) request(c *client, index uint64) *stream.SubscribeRequest {
 	req := &pbsubscribe.SubscribeRequest{Token: c.tok, Index: index, Datacenter: "dc1"}
@@ -659,7 +731,7 @@ func (w *world) opNext(id int) (string, string) {
 		// M3: nothing left to read, nothing queued: the view must be the current state
 		if w.pub.VerifC11QueueLen() == 0 && (c.phase == "stream" || c.phase == "resume") {
 			_, v := w.viewOf(c)
-			cur := directQuery(w.fsm.State(), c.key)
+			cur := directQuery(w.fsm.State(), c.key, c.az)
 			if v != cur.view {
 				sig := sigSkipped
 				// the queue gap (known finding) never excuses a mismatch at quiescence: once every
@@ -712,9 +784,20 @@ func (w *world) opNext(id int) (string, string) {
 		w.violate(sigNoForce, fmt.Sprintf("client %d (%s): event %d delivered after %s", id, c.key, ev.Index, c.mustClose))
 		c.mustClose = ""
 	}
-	authz := acl.ManageAll()
-	if !ev.Payload.HasReadPermission(authz) {
-		panic("event filtered by ManageAll")
+	// the ACL filter of the subscribe loop (subscribe.Server.Subscribe / LocalMaterializer.subscribeOnce):
+	// for a multi-event item this is PayloadEvents.HasReadPermission -> PayloadEvents.filter, run on the
+	// item every subscriber of the buffer shares
+	if !ev.Payload.HasReadPermission(authorizers[c.az]) {
+		c.seq = append(c.seq, fmt.Sprintf("skip@%d", ev.Index))
+		w.tag("next:skip-acl")
+		if c.phase == "snap" {
+			// inside a snapshot the order of the items is memdb's iteration order: not compared
+			return op, fmt.Sprintf("snap i=%d", ev.Index)
+		}
+		return op, fmt.Sprintf("skip i=%d", ev.Index)
+	}
+	if pe, ok := ev.Payload.(*stream.PayloadEvents); ok && c.az != "all" {
+		w.tag(fmt.Sprintf("acl:batch-filtered-to-%d", len(pe.Items)))
 	}
 	pe := ev.Payload.ToSubscriptionEvent(ev.Index)
 	if herr := c.cl.Handle(pe); herr != nil {
@@ -735,6 +818,9 @@ func (w *world) opNext(id int) (string, string) {
 	c.seq = append(c.seq, fmt.Sprintf("%s@%d", kind, ev.Index))
 	w.monitorDelivery(c, kind, ev.Index, vidx, v)
 	w.tag("next:" + kind)
+	if kind == "ev" && c.phase == "snap" {
+		return op, fmt.Sprintf("snap i=%d", ev.Index)
+	}
 	return op, fmt.Sprintf("%s i=%d vi=%d v=%s", kind, ev.Index, vidx, v)
 }
 
@@ -764,7 +850,7 @@ func (w *world) monitorDelivery(c *client, kind string, idx, vidx uint64, view s
 		// with this very (index, result)
 		ok := false
 		for v, d := range w.dumps {
-			if v <= c.verAtSub && d[c.key.String()].view == view && snapIdx(d[c.key.String()].idx) == idx {
+			if v <= c.verAtSub && d[c.dkey()].view == view && snapIdx(d[c.dkey()].idx) == idx {
 				ok = true
 				break
 			}
@@ -822,7 +908,7 @@ func (w *world) monitorDelivery(c *client, kind string, idx, vidx uint64, view s
 	d, ok := w.dumps[idx]
 	want := "<no such version>"
 	if ok {
-		want = d[c.key.String()].view
+		want = d[c.dkey()].view
 	}
 	if !ok || want != view || vidx != idx {
 		sig := sigView
@@ -1020,7 +1106,16 @@ func randomSchedule(run *hx.Run, r *hx.RNG, maxActs int, withRestore bool) {
 		if r.Chance(40) {
 			k = universe[r.Intn(len(universe))]
 		}
-		s.emit(w.opClient(i, k, hx.Pick(r, toks), r.Bool()))
+		az := "all"
+		if r.Chance(45) {
+			az = authzSpecs[r.Intn(len(authzSpecs))].name
+			if k.topic == "c" && strings.HasPrefix(az, "s:") {
+				// a sidecar may be renamed to a name the token cannot read while its destination stays
+				// the same; visibility per instance id is then not stable. Out of scope: node rules only.
+				az = "n:=n1"
+			}
+		}
+		s.emit(w.opClientAz(i, k, hx.Pick(r, toks), r.Bool(), az))
 	}
 	// a little initial state
 	for i := r.Intn(4); i > 0; i-- {
@@ -1266,6 +1361,62 @@ func corpus(run *hx.Run) {
 		drain(s, 1)
 		drain(s, 2)
 		drain(s, 3)
+		s.finish()
+	}
+	// subscribers with DIFFERENT tokens share one cached multi-event snapshot and the live buffer:
+	// the restricted ones read every shared item first; what the others get must not change
+	for _, order := range [][]int{{1, 2, 3}, {3, 1, 2}, {2, 3, 1}} {
+		s := begin(run, true)
+		w := s.w
+		s.emit(w.opClientAz(1, keyT{"g", "*"}, "t1", true, "s:=web"))
+		s.emit(w.opClientAz(2, keyT{"g", "*"}, "t2", false, "all"))
+		s.emit(w.opClientAz(3, keyT{"g", "*"}, "t2", true, "s:=web,=api"))
+		s.emit(w.opCfg("api", 1))
+		s.emit(w.opCfg("web", 2))
+		s.emit(w.opCfg("db", 0))
+		for w.pub.VerifC11QueueLen() > 0 {
+			s.emit(w.opPub())
+		}
+		for _, id := range order {
+			s.emit(w.opSub(id))
+		}
+		for _, id := range order {
+			drain(s, id)
+		}
+		s.emit(w.opCfg("api", 2))
+		s.emit(w.opCfgDel("web"))
+		s.emit(w.opPub())
+		s.emit(w.opPub())
+		for _, id := range order {
+			drain(s, id)
+		}
+		s.finish()
+	}
+	// the same on the health topic: node rules, instances on two nodes, cached snapshot
+	for _, order := range [][]int{{1, 2}, {2, 1}} {
+		s := begin(run, true)
+		w := s.w
+		s.emit(w.opClientAz(1, keyT{"h", "web"}, "t1", true, "n:=n1"))
+		s.emit(w.opClientAz(2, keyT{"h", "web"}, "t2", true, "all"))
+		s.emit(w.opReg("n1", 1, &svcSpec{"s1", "web", 80, "t", ""}))
+		s.emit(w.opReg("n2", 1, &svcSpec{"s2", "web", 80, "t", ""}))
+		s.emit(w.opReg("n1", 1, &svcSpec{"s3", "web", 80, "n", ""}))
+		for w.pub.VerifC11QueueLen() > 0 {
+			s.emit(w.opPub())
+		}
+		for _, id := range order {
+			s.emit(w.opSub(id))
+		}
+		for _, id := range order {
+			drain(s, id)
+		}
+		s.emit(w.opReg("n1", 2, nil)) // re-registers s1 and s3 in one batch
+		s.emit(w.opDereg("n2", ""))
+		s.emit(w.opPub())
+		s.emit(w.opPub())
+		for _, id := range order {
+			drain(s, id)
+		}
 		s.finish()
 	}
 	// ACL token write closes exactly the subscriptions of that token
